@@ -120,7 +120,10 @@ fn run_real(vars: &[(String, String)], vals: &[String], wrapper: &str) -> Option
     }
     let halt = crate::sdkenv::guarded_halt(3000);
     let _ = duckscript::runner::run_script(&script(wrapper, vals.len()), ctx, Some(crate::sdkenv::quiet_env(Some(halt.clone()))));
-    if halt.load(Ordering::SeqCst) {
+    if halt.load(Ordering::SeqCst) && !(wrapper.ends_with("while") && !in_domain(vals)) {
+        // (a `while` whose rebuilt condition line is broken — a value outside the safe class, the
+        // recorded K-classes — may test something that stays true for ever: the watchdog ends it and
+        // the calls seen so far are reported like for every other wrapper)
         return None;
     }
     let s = seen.borrow();
